@@ -127,6 +127,11 @@ type evaluator struct {
 	block  map[int]bool
 	depth  int
 
+	// steady-state refinement: a cycle through steadyHdr enters the header by a back edge from its second round on, so the
+	// header's phis take only the back-edge values, read from a finished over-approximating run (prev)
+	steadyHdr *ssa.BasicBlock
+	prev      *evaluator
+
 	cells   map[*ssa.Alloc]bool         // tracked local cells (non-escaping)
 	cellOut map[int]map[*ssa.Alloc]aval // state at block exit
 	cur     map[*ssa.Alloc]aval         // state while stepping through a block
@@ -229,16 +234,24 @@ func (e *evaluator) run() {
 			// cell state at entry: join over feasible incoming edges
 			e.cur = map[*ssa.Alloc]aval{}
 			for _, pred := range b.Preds {
+				from := e
+				if b == e.steadyHdr && e.prev != nil {
+					// from the second round on the header is entered by a back edge only
+					if !e.scope[pred] {
+						continue
+					}
+					from = e.prev
+				}
 				f := false
 				for si, sc := range pred.Succs {
-					if sc == b && e.feasible(pred, si) {
+					if sc == b && from.feasible(pred, si) {
 						f = true
 					}
 				}
 				if !f {
 					continue
 				}
-				for c, v := range e.cellOut[pred.Index] {
+				for c, v := range from.cellOut[pred.Index] {
 					e.cur[c] = avJoin(e.cur[c], v)
 				}
 			}
@@ -348,6 +361,23 @@ func (e *evaluator) step(b *ssa.BasicBlock, in ssa.Instruction) bool {
 	switch t := in.(type) {
 	case *ssa.Phi:
 		acc := bot
+		if b == e.steadyHdr && e.prev != nil {
+			for i, pred := range b.Preds {
+				if !e.scope[pred] {
+					continue
+				}
+				for si, s := range pred.Succs {
+					if s == b && e.prev.feasible(pred, si) {
+						pv := e.prev.get(t.Edges[i])
+						if pv.k == avBot {
+							pv = top
+						}
+						acc = avJoin(acc, pv)
+					}
+				}
+			}
+			return e.set(v, acc)
+		}
 		for i, pred := range b.Preds {
 			// is the edge pred -> b feasible?
 			f := false
@@ -1034,7 +1064,16 @@ func (f *streamFamily) steadyCycle(l loopInfo) ([]*ssa.BasicBlock, *evaluator) {
 		return false
 	}
 	if ev.block[l.header.Index] && dfs(l.header) {
-		return path, ev
+		// second look from the second round on (the first round may enter with values read before the loop)
+		ev2 := &evaluator{fam: f, fn: l.fn, params: args, scope: l.body, steadyHdr: l.header, prev: ev}
+		ev2.run()
+		first := ev
+		ev = ev2
+		path, seen = nil, map[*ssa.BasicBlock]bool{}
+		if ev2.block[l.header.Index] && dfs(l.header) {
+			return path, ev2
+		}
+		return nil, first
 	}
 	return nil, ev
 }
